@@ -312,4 +312,3 @@ func RandomSchema(r *vc.Rand, pkg string) *Schema {
 	}
 	return s
 }
-
